@@ -28,10 +28,15 @@ def keywords_ok(ex, st, kw):
     item, quote, esc = G(st, "item"), G(st, "quote"), G(st, "esc")
     same = esc == quote
     dq = kw["doublequote"]; ec = kw["escapechar"]
-    # doublequote / escapechar are decided on a forked path: concrete values there
     conj = [lift(kw["delimiter"]).z == item, lift(kw["quotechar"]).z == quote, lift(kw["quoting"]).z == G(st, "quoting"), lift(kw["skipinitialspace"]).z == G(st, "skip"), z3.BoolVal(kw["strict"] is True)]
-    if dq is True and ec is None: conj.append(same)
-    elif dq is False and isinstance(ec, Sym): conj += [z3.Not(same), ec.z == esc]
+    # doublequote: a bool (a constant on a forked path, or the comparison itself); escapechar: None or a text (a constant None on a forked path, or an optional text)
+    if isinstance(dq, bool): conj.append(same if dq else z3.Not(same))
+    elif isinstance(dq, Sym) and dq.ty == BOOL: conj.append(dq.z == same)
+    else: conj.append(z3.BoolVal(False))
+    if ec is None: conj.append(same)
+    elif isinstance(ec, Sym) and ec.ty == STR: conj += [z3.Not(same), ec.z == esc]
+    elif isinstance(ec, Sym) and ec.ty.kind == "opt" and ec.ty.args[0] == STR:
+        so = sort_of(ec.ty); conj.append(z3.If(same, so.is_none(ec.z), z3.And(z3.Not(so.is_none(ec.z)), so.val(ec.z) == esc)))
     else: conj.append(z3.BoolVal(False))
     return z3.And(*conj)
 
